@@ -553,8 +553,17 @@ func (i *Interface) Delete(key string) error {
 	}
 
 	i.options.Apply(r)
+	previousState := r.Meta().Deleted
 	r.Meta().Delete()
-	return db.Put(r)
+	err = db.Put(r)
+	if err != nil {
+		// The record was not deleted, eg. because a hook vetoed the operation.
+		// The record object may be shared with the storage or a cache, so it
+		// must not stay marked as deleted.
+		r.Meta().Deleted = previousState
+		return err
+	}
+	return nil
 }
 
 // Query executes the given query on the database.
